@@ -34,9 +34,10 @@ claim('C04', 'sibling cross-check of the folding functions + integer operation a
       'Context::eval_bin dispatches OpKind::X to try_x; no trapping or truncating integer operation in those arms (each instance reported, the 51 present today are known findings).',
       'Float rounding and non-arithmetic constant expressions are not decided. Operand types come from rustc typeck.',
       'DESIGN.md §3 C04')
-claim('C21', 'coupled-state rule over every ModuleGraph method (who writes `graph` must write `index`)',
-      'Decides the representation invariant index[path] == position(path): every mutation of the node vector or of a Node::id is accompanied, on the same path, by an index update.',
-      'Query answers, cycle refusal and topological order over operation histories are not decided.',
+claim('C21', 'coupled-state rule over every ModuleGraph method (who writes `graph` must write `index`); who-may-write + dominance rule for dependency edges',
+      'Decides the representation invariant index[path] == position(path): every mutation of the node vector or of a Node::id is accompanied, on the same path, by an index update; '
+      'and cycle refusal: the only edge writer is inc_ref, behind `referrer == depends_on` and a transitive deep_depends_on(depends_on, referrer) test that no conjunct weakens.',
+      'Query answers and topological order over operation histories are not decided.',
       'DESIGN.md §3 C21')
 claim('C31', 'structural rule on the ParentDir arm of cheap_canonicalize_path',
       'Decides the clause "never discards leading parent-directory components" as a necessary condition: the ParentDir arm must be able to emit the component.',
